@@ -92,6 +92,28 @@ def gen_boundary_spec(rng, k):
     return spec
 
 
+def gen_restore_spec(rng, k):
+    """every tree-using configuration x restore method x boundary x 1..3 root boxes"""
+    modes = [("tree", "none"), ("none", "tree"), ("none", "linetree"), ("tree", "tree"), ("tree", "linetree"), ("basic", "linetree"), ("basic", "tree")]
+    g, c = modes[k % len(modes)]
+    method = ["copy", "file", "archive", "pickle"][(k // len(modes)) % 4]
+    boundary = ["periodic", "open", "shear"][(k // 3) % 3] if k % 5 else rng.choice(["periodic", "open", "shear"])
+    n = list(rng.choice([(1, 1, 1), (2, 1, 1), (1, 2, 1), (3, 1, 1), (2, 1, 1)]))
+    rs = rng.choice(FRIENDLY_RS + ROUGH_RS)
+    spec = {"kind": "restore", "rs": rs, "n": n, "boundary": boundary, "gravity": g, "collision": c, "method": method, "seed": rng.randrange(1 << 30),
+            "N": rng.choice([3, 10, 25, 40]), "steps_before": rng.choice([0, 1, 4]), "steps_after": rng.choice([2, 5]), "dt": 0.05}
+    spec["vel"] = rng.choice([0.05, 0.5, 1.5]) * rs / spec["dt"]
+    if boundary == "open":
+        spec["vel"] = min(spec["vel"], 0.1 * rs / spec["dt"])
+    if c != "none":
+        spec["radius"] = rs * rng.choice([0.03, 0.08])
+    if g != "none":
+        spec["softening"] = 0.05 * rs; spec["mscale"] = 1e-3 * rs ** 3
+    if boundary == "shear":
+        spec["omega"] = rng.choice([1.0, 0.37])
+    return spec
+
+
 def corner_specs():
     out = []
     # (i) particle exactly on the upper box border, more than one root box
@@ -325,11 +347,14 @@ def run(ctx):
     libdir = ctx.lib()
     rng = ctx.rng
     check_layout(ctx)
+    ctx.regen("translate_usestree.py")
     proved = ctx.prove("C15", extra_targets=["C15/Run.vo", "C15/Run2.vo"])
 
     ntree = ctx.scale(112, 900)
     nbound = ctx.scale(60, 500)
-    specs = [gen_tree_spec(rng, k) for k in range(ntree)] + [gen_boundary_spec(rng, k) for k in range(nbound)] + corner_specs()
+    nrest = ctx.scale(84, 560)
+    specs = [gen_tree_spec(rng, k) for k in range(ntree)] + [gen_boundary_spec(rng, k) for k in range(nbound)] + \
+            [gen_restore_spec(rng, k) for k in range(nrest)] + corner_specs()
     if ctx.thorough:
         for s in specs:
             if s["kind"] == "tree":
@@ -351,7 +376,7 @@ def run(ctx):
     for spec, res in zip(specs, results):
         for k, v in res.get("stats", {}).items():
             totals[k] = (max(totals.get(k, 0), v) if k == "maxdepth" else totals.get(k, 0) + v)
-        key = "%s|%s|roots=%s|grav=%s|coll=%s" % (spec["kind"], spec["boundary"], "x".join(map(str, spec["n"])), spec.get("gravity", "none"),
+        key = "%s|%s|roots=%s|grav=%s|coll=%s" % (spec["kind"] + ("/" + spec["method"] if "method" in spec else ""), spec["boundary"], "x".join(map(str, spec["n"])), spec.get("gravity", "none"),
                                                  spec.get("collision", "none") + ("/" + spec["collision_resolve"] if "collision_resolve" in spec else ""))
         dist[key] = dist.get(key, 0) + 1
         nsteps = res.get("stats", {}).get("steps", 0)
